@@ -114,7 +114,7 @@ theorem UniqN_pathUniq : ∀ (path : List Int) {k : Nat} {h : Heap} {v : Val}, U
       | succ k =>
         simp only [UniqN_succ_ref] at u
         simp only [PathUniq]
-        exact ⟨u.1, fun j hj => ih (u.2 _ (getD_mem _ (pyIndex_lt hj)))⟩
+        exact ⟨u.1, fun j hj => ih (u.2 _ (getD_mem _ (slotOf_lt hj)))⟩
 
 theorem UniqN_endUniq : ∀ (path : List Int) {k : Nat} {h : Heap} {v : Val}, UniqN k h v → EndUniq h v path := by
   intro path
@@ -139,7 +139,7 @@ theorem UniqN_endUniq : ∀ (path : List Int) {k : Nat} {h : Heap} {v : Val}, Un
       | succ k =>
         simp only [UniqN_succ_ref] at u
         simp only [EndUniq]
-        exact fun j hj => ih (u.2 _ (getD_mem _ (pyIndex_lt hj)))
+        exact fun j hj => ih (u.2 _ (getD_mem _ (slotOf_lt hj)))
 
 /-! ### dropping some other owned value -/
 
@@ -179,10 +179,10 @@ theorem dropVal_uniq : ∀ (f : Nat) (h : Heap) (v : Val) (F : List Val), Inv h 
         have hpz : pocc id h = 0 := by omega
         have hfz : occ id F = 0 := by omega
         have hne : u ≠ .ref id := ne_ref_of_occ_zero hfz hu
-        have i1 : Inv (setAlloc h id ⟨[], 0⟩) (payloadOf h id ++ F) := by
+        have i1 : Inv (setAlloc h id ⟨[], 0, none⟩) (payloadOf h id ++ F) := by
           intro j
           have hj := i j
-          have hp := pocc_setAlloc h id j ⟨[], 0⟩ hl
+          have hp := pocc_setAlloc h id j ⟨[], 0, none⟩ hl
           simp only [occ_nil, Nat.add_zero] at hp
           simp only [occ_append, rcOf_setAlloc, hl, and_true]
           simp only [occ_cons_ref] at hj
@@ -202,10 +202,17 @@ theorem drop_uniq {h : Heap} {v : Val} {F : List Val} (i : Inv h (v :: F)) {u : 
 
 /-- contract of a leaf action on a fully unshared slot value: the new slot value and the result are
 fully unshared, and every fully unshared value of the frame stays so -/
-def LeafU (leaf : Heap → Val → WalkRes) (cap : List Val) : Prop :=
+def LeafU (leaf : Leaf) (cap : List Val) : Prop :=
   ∀ (h : Heap) (c : Val) (F : List Val) (k : Nat), Inv h (c :: cap ++ F) → UniqN k h c →
-    UniqN k (leaf h c).h (leaf h c).v ∧ UniqN k (leaf h c).h (leaf h c).r ∧
-    ∀ u ∈ F, ∀ k', UniqN k' h u → UniqN k' (leaf h c).h u
+    UniqN k (leaf.act h c).h (leaf.act h c).v ∧ UniqN k (leaf.act h c).h (leaf.act h c).r ∧
+    ∀ u ∈ F, ∀ k', UniqN k' h u → UniqN k' (leaf.act h c).h u
+
+/-- the value a leaf inserts under a new dict key is an atom -/
+def InsAtom (leaf : Leaf) : Prop := ∀ new, leaf.ins = some new → ∀ j, new ≠ .ref j
+
+theorem setLeaf_insAtom (new : Val) (hn : ∀ j, new ≠ .ref j) : InsAtom (setLeaf new) := by
+  intro n e; simp [setLeaf] at e; subst e; exact hn
+theorem popLeaf_insAtom : InsAtom popLeaf := by intro n e; simp [popLeaf] at e
 
 theorem setLeaf_leafU (new : Val) (hn : ∀ j, new ≠ .ref j) : LeafU (setLeaf new) [new] := by
   intro h c F k i _
@@ -215,15 +222,19 @@ theorem setLeaf_leafU (new : Val) (hn : ∀ j, new ≠ .ref j) : LeafU (setLeaf 
 theorem popLeaf_leafU : LeafU popLeaf [] := by
   intro h c F k i uc
   cases c with
-  | null => exact ⟨by simp [popLeaf], by simp [popLeaf], fun u _ k' uu => uu⟩
-  | int n => exact ⟨by simp [popLeaf], by simp [popLeaf], fun u _ k' uu => uu⟩
+  | null => exact ⟨by simp [popLeaf, popAct], by simp [popLeaf, popAct], fun u _ k' uu => uu⟩
+  | int n => exact ⟨by simp [popLeaf, popAct], by simp [popLeaf, popAct], fun u _ k' uu => uu⟩
   | ref id =>
     cases k with
     | zero => simp at uc
     | succ k =>
       simp only [UniqN_succ_ref] at uc
       obtain ⟨hz, hf, hl⟩ := unique_facts (T := F) (by simpa using i) uc.1
-      simp only [popLeaf, makeMut_of_unique uc.1]
+      simp only [popLeaf, popAct, makeMut_of_unique uc.1]
+      cases hkk : keysOf h id with
+      | some ks => exact ⟨by simp [uc.1]; exact uc.2, by simp, fun u _ k' uu => uu⟩
+      | none =>
+      dsimp only
       cases hg : (payloadOf h id).getLast? with
       | none => exact ⟨by simp [uc.1]; exact uc.2, by simp, fun u _ k' uu => uu⟩
       | some xv =>
@@ -238,8 +249,9 @@ theorem popLeaf_leafU : LeafU popLeaf [] := by
 
 /-- **walking a fully unshared value keeps it fully unshared** (and keeps every fully unshared value of
 the frame so), at any depth -/
-theorem walk_uniq {leaf : Heap → Val → WalkRes} {cap : List Val} {capT : List Tree}
-    {φ : Tree → Option (Tree × Tree)} (L : LeafSpec leaf cap capT φ) (LU : LeafU leaf cap) :
+theorem walk_uniq {leaf : Leaf} {cap : List Val} {capT : List Tree}
+    {φ : Store.LeafT} (L : LeafSpec leaf.act cap capT φ.act) (LI : InsSpec leaf.ins φ.ins cap capT)
+    (LU : LeafU leaf cap) (LA : InsAtom leaf) :
     ∀ (path : List Int) (h : Heap) (v : Val) (F : List Val) (t : Tree) (k : Nat),
       Inv h (v :: cap ++ F) → Rep h v t → All2 (Rep h) cap capT → UniqN k h v →
       UniqN k (walk leaf h v path).h (walk leaf h v path).v ∧
@@ -258,20 +270,40 @@ theorem walk_uniq {leaf : Heap → Val → WalkRes} {cap : List Val} {capT : Lis
       | zero => simp at uv
       | succ k =>
         simp only [UniqN_succ_ref] at uv
-        obtain ⟨ts, rfl, hl, a⟩ := Rep_ref_inv r
+        obtain ⟨hcont, hl, hkeys, hwf, a⟩ := Rep_ref_inv r
         have i0 : Inv h (.ref id :: (cap ++ F)) := i.congr (fun k => by simp [occ_cons, occ_append])
         obtain ⟨hz, hcf, _⟩ := unique_facts i0 uv.1
         have hcz : occ id cap = 0 := by simp only [occ_append] at hcf; omega
         have hfz : occ id F = 0 := by simp only [occ_append] at hcf; omega
         rw [walk_ref_cons, makeMut_of_unique uv.1]
         dsimp only
-        cases hp : pyIndex (payloadOf h id).length ix with
+        cases hp : slotOf h id ix with
         | none =>
           dsimp only
-          exact ⟨by simp [uv.1]; exact uv.2, by simp, fun u _ k' uu => uu⟩
+          have fail : UniqN (k + 1) h (.ref id) ∧ UniqN (k + 1) h .null ∧
+              ∀ u ∈ F, ∀ k', UniqN k' h u → UniqN k' h u :=
+            ⟨by simp [uv.1]; exact uv.2, by simp, fun u _ k' uu => uu⟩
+          cases hk : keysOf h id with
+          | none => simp only [walkMissing, hk]; exact fail
+          | some ks =>
+            cases rest with
+            | cons i2 r2 => simp only [walkMissing, hk]; exact fail
+            | nil =>
+              cases hi : leaf.ins with
+              | none => simp only [walkMissing, hk, hi]; exact fail
+              | some new =>
+                simp only [walkMissing, hk, hi]
+                have hna := LA new hi
+                refine ⟨?_, by simp, fun u hu k' uu => ?_⟩
+                · simp only [UniqN_succ_ref, rcOf_setEntries, payloadOf_setEntries, hl, and_self, if_true]
+                  refine ⟨uv.1, fun c hc => ?_⟩
+                  rcases List.mem_append.1 hc with hm | hm
+                  · exact UniqN_frame _ hz (ne_ref_of_pocc_zero hz hm) (uv.2 c hm)
+                  · simp at hm; subst hm; exact UniqN_atom hna
+                · exact UniqN_frame _ hz (ne_ref_of_occ_zero hfz hu) uu
         | some j =>
           dsimp only
-          have hj := pyIndex_lt hp
+          have hj := slotOf_lt hp
           have hcm : (payloadOf h id).getD j .null ∈ payloadOf h id := getD_mem _ hj
           have hcne : (payloadOf h id).getD j .null ≠ .ref id := ne_ref_of_pocc_zero hz hcm
           have i1 : Inv (setPayload h id ((payloadOf h id).set j .null))
@@ -280,7 +312,7 @@ theorem walk_uniq {leaf : Heap → Val → WalkRes} {cap : List Val} {capT : Lis
               (i0.congr (fun k => by simp [occ_cons])) uv.1 hj
             exact this.congr (fun k => by simp only [occ_cons, occ_append, List.cons_append]; omega)
           have rc : Rep (setPayload h id ((payloadOf h id).set j .null)) ((payloadOf h id).getD j .null)
-              (ts.getD j .null) := slot_write_rep _ hz (All2.getD j _ _ a hj) hcne
+              (t.kids.getD j .null) := slot_write_rep _ hz (All2.getD j _ _ a hj) hcne
           have rcap1 : All2 (Rep (setPayload h id ((payloadOf h id).set j .null))) cap capT :=
             All2.mono (fun cv _ hm r => slot_write_rep _ hz r (ne_ref_of_occ_zero hcz hm)) rcap
           have uc1 : UniqN k (setPayload h id ((payloadOf h id).set j .null)) ((payloadOf h id).getD j .null) :=
@@ -295,7 +327,7 @@ theorem walk_uniq {leaf : Heap → Val → WalkRes} {cap : List Val} {capT : Lis
             · exact UniqN_setPayload _ hz (ne_ref_of_pocc_zero hz hm) (uv.2 c hm)
             · simp
           have IH := ih _ _ (.ref id :: F) _ k i1 rc rcap1 uc1
-          have W := walk_spec L rest _ _ (.ref id :: F) _ i1 rc rcap1
+          have W := walk_spec L LI rest _ _ (.ref id :: F) _ i1 rc rcap1
           dsimp only at W
           obtain ⟨w, hw⟩ : ∃ w, walk leaf (setPayload h id ((payloadOf h id).set j .null))
               ((payloadOf h id).getD j .null) rest = w := ⟨_, rfl⟩
